@@ -9,8 +9,8 @@
 (*   [k |-> "set", off, v]         overwrite the field at off with bytes v     *)
 (* Truncation points: every length 0..Dense, every field boundary and the      *)
 (* bytes next to it, the last bytes of the file.  Field values: the boundary   *)
-(* set 0, 1, 0x7F.., 0x80.., 0xFF.., original +- 1 (in the field's width,     *)
-(* little- and big-endian spellings).                                          *)
+(* set 0, 1, 0x7F.., 0x80.., 0xFF.., original +- 1, 2, 4, 8, 16 (in the field's *)
+(* width, little- and big-endian spellings).                                   *)
 EXTENDS Naturals, Sequences, SequencesExt, FiniteSets, FiniteSetsExt
 
 Dense == 48
@@ -22,13 +22,19 @@ DecLE(b) ==
   LET borrowTo == IF \A i \in 1..Len(b) : b[i] = 0 THEN Len(b) + 1 ELSE Min({i \in 1..Len(b) : b[i] # 0})
   IN [i \in 1..Len(b) |-> IF i < borrowTo THEN 255 ELSE IF i = borrowTo THEN b[i] - 1 ELSE b[i]]
 Rev(b) == [i \in 1..Len(b) |-> b[Len(b) + 1 - i]]
+\* b + k and b - k (k steps of the increment): the values "a little off" that keep a count or size plausible
+AddLE(b, k) == FoldLeft(LAMBDA x, i : IncLE(x), b, [i \in 1..k |-> i])
+SubLE(b, k) == FoldLeft(LAMBDA x, i : DecLE(x), b, [i \in 1..k |-> i])
+NearSteps == {2, 4, 8, 16}
 Fill(x, w) == [i \in 1..w |-> x]
 \* boundary values of a field of width w with original bytes orig
 Boundary(w, orig) ==
   LET le == {Fill(0, w), [i \in 1..w |-> IF i = 1 THEN 1 ELSE 0], Fill(255, w),
              [i \in 1..w |-> IF i = w THEN 127 ELSE 255], [i \in 1..w |-> IF i = w THEN 128 ELSE 0],
              IncLE(orig), DecLE(orig)}
-  IN (le \cup {Rev(x) : x \in le} \cup {Rev(IncLE(Rev(orig))), Rev(DecLE(Rev(orig)))}) \ {orig}
+      near == {AddLE(orig, k) : k \in NearSteps} \cup {SubLE(orig, k) : k \in NearSteps}
+      nearBE == IF w = 1 THEN {} ELSE {Rev(AddLE(Rev(orig), k)) : k \in NearSteps} \cup {Rev(SubLE(Rev(orig), k)) : k \in NearSteps}
+  IN (le \cup {Rev(x) : x \in le} \cup {Rev(IncLE(Rev(orig))), Rev(DecLE(Rev(orig)))} \cup near \cup nearBE) \ {orig}
 
 TruncPoints(base) ==
   LET edges == UNION {{base.fields[i].off - 1, base.fields[i].off, base.fields[i].off + 1,
